@@ -218,6 +218,7 @@ def run(ctx):
     q = ctx.quick
     ctx.mc('MC_PSR', constants={'FULL': 'FALSE' if q else 'TRUE'}, coverage=False, timeout=3000)
     ctx.mc('MC_Return', coverage=False)
+    ctx.mc('MC_Coproc', coverage=False)
     tasks = []
     for i, ext in enumerate(EXT_CFG):
         tasks.append((psr_api_task, dict(name='psrapi-%d' % i, seed=ctx.seed + i, ext=ext, reps=6 if q else 60)))
